@@ -25,6 +25,10 @@ DOCTYPES = ['<!DOCTYPE html PUBLIC "">', "<!DOCTYPE html SYSTEM ''>", '<!DOCTYPE
             '<!DOCTYPE html PUBLIC "" "about:legacy-compat">', '<!DOCTYPE html PUBLIC "-//W3C//DTD HTML 4.01//EN">', "<!doctype HTML>", "<!DOCTYPE htm>", "",
             '<!DOCTYPE html SYSTEM "">', '<!DOCTYPE html PUBLIC "-//W3C//DTD XHTML 1.0 Strict//EN" "http://www.w3.org/TR/xhtml1/DTD/xhtml1-strict.dtd">']
 INSERTS = ["</i>", "</p>", "<table>", "</table>", "<b>", "x", "\n", "</td>", "<tr>", "&amp;", "<!-- c -->", "</br>", " ", "<li>", "</body>", "<p>", "<svg>", "</svg>", "\t\n"]
+LEXICAL_ERRORS = ["</p x=y>", "<br/ >", "<a b=1 b=2></a>", "<i a=\"b\"c></i>", "&#0;", "&#x110000;", "&#xD800;", "&#128;", "&#1;", "&#xFDD0;", "<!-->", "<!--->", "<!--x--!>", "<!x>", "<?x>", "</>",
+                  "</ x>", "<3", "\x00", "<a b='c'd></a>", "<a b=c\"d></a>", "<a =b></a>", "<a b\"c=d></a>", "<a b=></a>", "&amp", "&ampx", "x\x0by", "\ufdd0", "\x7f", "<a b=c'd></a>",
+                  "<a b=c<d></a>", "<a b=c=d></a>", "<a b=c`d></a>", "<a 'b'></a>", "<a <b></a>", "</p/>", "<!DOCTYPE html>", "&#x;", "&#;", "&#xZ", "&#9999999999;", "<!--x", "<b", "<b a", "<b a=", "<b a='x",
+                  "</b", "<!DOCTYPE", "<![CDATA[x]]>", "<!-", "&#65"]
 WS_TAILS = ["", " ", "\n", "\n\n ", "x", " x", "&#32;", "<!-- c -->", "\n<!-- c -->"]
 
 
@@ -93,6 +97,9 @@ def check_case(case):
     if errs and raised is None:
         return Verdict("fail", "non-strict recorded %r but strict mode raised nothing; input %s" % (errs[0], short(text, 150)), "strict-silent:" + codes[0],
                        nontrivial=True, classes=classes)
+    if not errs and case.get("must_error"):
+        return Verdict("fail", "no parse error is recorded (strict mode %s) for a document whose only mistake is %r at the end of body - a parse error by the standard; input ...%s"
+                       % ("raised nothing" if raised is None else "raised %r" % str(raised), case["must_error"], short(text[-160:], 200)), "lexical-error-missing", nontrivial=True, classes=classes)
     if not errs:
         # 'exactly when a parse error exists': an input on which html5lib records nothing must be free of tree-construction errors
         # by the standard (the reference tree constructor marks each of the standard's parse-error steps it takes in its trace)
@@ -276,6 +283,17 @@ def run_shard(desc, seed, tier):
             for m in muts:
                 case = {"text": m, "container": None, "scripting": False}
                 acc.add(case, check_case(case))
+            # ONE lexical mistake as the last thing in body (data state, "in body"): each snippet is a tokenizer / input-stream parse
+            # error by the standard wherever it stands in the data state, so the document must record at least one error
+            import copy
+            d2 = copy.deepcopy(doc)
+            d2["html"][4][1][4].append(["t", "\ue000"])
+            t2 = conforming.writer(d2)
+            if t2.count("\ue000") == 1:
+                for k in range(3):
+                    snip = LEXICAL_ERRORS[(r // (19 + k)) % len(LEXICAL_ERRORS)]
+                    case = {"text": t2.replace("\ue000", snip), "container": None, "scripting": False, "must_error": snip}
+                    acc.add(case, check_case(case))
         drive(st.tuples(conforming._doc_strategy(30), st.integers(0, 10 ** 9), st.integers(0, 7)), fn, desc["n"], seed)
     elif kind == "bytes":
         from vf.gen.soup import sized_binary
